@@ -9,6 +9,15 @@ from xvcbin import cache_rel
 KIND_OF = {'copy': 'copy', 'reflink': 'copy', 'hardlink': 'hardlink', 'symlink': 'symlink'}
 
 
+import functools
+
+
+@functools.lru_cache(maxsize=8192)
+def ref_digest(algo, b):
+    """digest of `b` by the hashers that are independent of xvc (memoised: the same object is judged after every command)"""
+    return hashref.digest(algo, b)
+
+
 def read_through(obs, p):
     k = obs.ws.get(p)
     if not k:
@@ -69,7 +78,7 @@ def o1_content_addressed(steps, cfg, history):
                 out.append((f"step {st['i']} {show_cmd(st['cmd'])}: cache object {rel} is a {o['kind']}, not a regular file", {'kind': 'object-is-symlink'}))
                 continue
             algo = {v: k for k, v in hashref.PREFIX.items()}.get(pfx)
-            ok = algo and hexd in (hashref.digest(algo, o['bytes']), hashref.digest(algo, hashref.strip_crlf(o['bytes'])))
+            ok = algo and hexd in (ref_digest(algo, o['bytes']), ref_digest(algo, hashref.strip_crlf(o['bytes'])))
             if not ok:
                 out.append((f"step {st['i']} {show_cmd(st['cmd'])}: object {rel} does not hash to its address (neither raw nor CR/LF-stripped, {algo})", {'kind': 'address-mismatch'}))
             if o['mode'] & 0o222:
@@ -104,7 +113,7 @@ def o1r_recheck_restores(steps, cfg, history):
         pre, post = st['pre'], st['post']
         # a path recorded as a tracked file stays one unless it is untracked or moved away: a command that makes the record
         # vanish (e.g. by recording the file as "missing", seeded change C01-5) makes its committed versions unreachable for recheck
-        if pre is not None and post is not None and st['rc'] == 0 and c['op'] not in ('untrack', 'move', 'write', 'delete', 'emptydir', 'link'):
+        if pre is not None and post is not None and st['rc'] == 0 and c['op'] not in ('untrack', 'move', 'movem', 'write', 'delete', 'emptydir', 'link'):
             for t in pre.recs:
                 if t not in post.recs and pre.recs[t].get('cur'):
                     out.append((f"step {st['i']} {show_cmd(c)}: {t} was recorded as a tracked file with a committed version before the command and is not afterwards",
@@ -303,6 +312,67 @@ def o6_methods(steps, cfg, history):
     return out
 
 
+def recheck_applies(c, pre, t):
+    """`recheck --recheck-method M` is owed for target t: t is tracked, its committed version is in the cache, and its workspace
+    entry is absent or unmodified - or, with --force, anything readable (an edited copy, a link replaced by a file of the user)"""
+    if t not in pre.recs or not pre.recs[t]['cur']:
+        return False
+    if pre.ws.get(t) is not None and read_through(pre, t) is None:
+        return False                      # a dangling link
+    if unmodified(pre, t):
+        return True
+    return bool(c.get('force')) and pre.cache.get(rec_addr(pre.recs[t], t), {}).get('bytes') is not None
+
+
+def o6_method_sticks(steps, cfg, history):
+    """C17, last sentence ("the stored method is the one used by later rechecks"), judged without looking at xvc's records: the
+    harness notes for every path the method of the last successful command that asked for one explicitly and had to honour it
+    (first track of a file, `recheck --recheck-method M` on an absent/unmodified entry or - with --force - on a modified one).
+    A later `recheck` WITHOUT a method that has to materialise the path (absent entry, or --force) must produce an entry of the
+    noted kind.  Commands whose effect on the method the note cannot follow (re-track, copy/move, remove, untrack, a failure)
+    drop the note: nothing is claimed then."""
+    out, last = [], {}
+    for st in steps:
+        c, pre, post = st['cmd'], st['pre'], st['post']
+        if pre is None or post is None:
+            break
+        op = c['op']
+        if op in ('write', 'delete', 'emptydir', 'link', 'carryin') and st['rc'] == 0:
+            continue                      # carry-in re-materialises with the recorded method and records none
+        touched = list(c.get('targets', [])) + [c[k] for k in ('src', 'dst') if c.get(k)]
+        if st['rc'] != 0 or op not in ('recheck', 'track'):
+            for t in touched: last.pop(t, None)
+            continue
+        if op == 'track':
+            for t in c['targets']:
+                if t not in pre.recs and read_through(pre, t) is not None and not c.get('no_commit') and t in post.recs:
+                    last[t] = c.get('method') or cfg['method']
+                else:
+                    last.pop(t, None)
+            continue
+        for t in c['targets']:
+            if c.get('method'):
+                if recheck_applies(c, pre, t): last[t] = c['method']
+                elif not c.get('force') and t in pre.recs and pre.recs[t]['cur'] and read_through(pre, t) is not None and \
+                        pre.cache.get(rec_addr(pre.recs[t], t), {}).get('bytes') is not None and \
+                        hashref.strip_crlf(pre.cache[rec_addr(pre.recs[t], t)]['bytes']) != hashref.strip_crlf(read_through(pre, t)):
+                    pass                  # an edited file, no --force: refused for t, nothing done, nothing recorded
+                else: last.pop(t, None)
+                continue
+            if t not in last or t not in pre.recs or t not in post.recs or not recheck_applies(c, pre, t):
+                continue
+            if not (pre.ws.get(t) is None or c.get('force')):
+                continue
+            o = post.cache.get(rec_addr(post.recs[t], t))
+            if not o or o.get('bytes') is None:
+                continue
+            kind, addr = entry_kind(post, t)
+            if kind != KIND_OF[last[t]]:
+                out.append((f"step {st['i']} {show_cmd(c)}: {t} comes back as '{kind}', but the method last requested for it (and honoured) was {last[t]}",
+                            {'kind': 'later-recheck-uses-other-method'}))
+    return out
+
+
 def o7_copy_move(steps, cfg, history):
     """C19"""
     out = []
@@ -357,7 +427,9 @@ class Committed:
     def __init__(self):
         self.cur = {}
         self.snapshots = []       # (step index, git head, dict path->bytes)
+        self.snap_ents = {}       # step index -> dict path->entity recorded for the path at that commit
         self.last_destructive = -1
+        self.last_removal = -1    # last remove / untrack without --force
 
     def update(self, st, head=None):
         c, pre, post = st['cmd'], st['pre'], st['post']
@@ -412,7 +484,20 @@ class Committed:
                 r = post.recs.get(p)
                 if not r or rec_addr(r, p) in gone:
                     self.cur.pop(p, None)
-            self.last_destructive = st['i']
+            if c.get('force'):
+                self.last_destructive = st['i']
+            else:
+                # Without --force the command is entitled to delete versions of its TARGETS only: the snapshots taken before it stay
+                # valid for every path (followed by its entity) that was not a target and is still tracked (C04: "every version ever
+                # committed for a still-tracked path remains in the cache"; seeded change C04-5)
+                self.last_removal = st['i']
+                tents = {pre.recs[t]['entity'] for t in c['targets'] if t in pre.recs}
+                alive = {r['entity'] for r in post.recs.values()}
+                for (i, head, snap) in self.snapshots:
+                    ents = self.snap_ents.get(i, {})
+                    for p in list(snap):
+                        if ents.get(p) is None or ents[p] in tents or ents[p] not in alive:
+                            snap.pop(p)
         if c['op'] in ('track', 'carryin') and c.get('force'):
             self.last_destructive = st['i']
         for p in list(self.cur):
@@ -420,6 +505,7 @@ class Committed:
                 self.cur.pop(p)
         if head and c['op'] not in ('write', 'delete'):
             self.snapshots.append((st['i'], head, dict(self.cur)))
+            self.snap_ents[st['i']] = {p: post.recs[p]['entity'] for p in self.cur if p in post.recs}
 
 
 def restore_hook_factory(results, every_step=False, old_commits=False, restore_versions=False):
@@ -514,7 +600,10 @@ def restore_hook_factory(results, every_step=False, old_commits=False, restore_v
             shutil.rmtree(cp, ignore_errors=True)
         if old_commits and last:
             snaps = [s for s in com.snapshots if s[0] > com.last_destructive and s[2]]
-            for (i, head, snap) in snaps[-4:][:3]:
+            # commits made BEFORE the last remove / untrack (without --force) come first: they name earlier versions of the paths
+            # that are still tracked
+            pri = [x for x in snaps if x[0] < com.last_removal][-3:]
+            for (i, head, snap) in (pri + [x for x in snaps[-4:][:3] if x[0] not in {y[0] for y in pri}])[:4]:
                 cp = sb.base + '.old'
                 shutil.rmtree(cp, ignore_errors=True)
                 subprocess.run(['cp', '-a', sb.base, cp], check=False)
@@ -997,7 +1086,10 @@ def run_property(chk, pid, oracles, want=('main',), restore=None, nq=280, nt=300
             chk.oracle_failure(msg, {'cfg': cfg, 'history': [show_cmd(c) for c in h], 'replay_of': name}, None, signature=sig)
     chk.extra['rule'] = (f'{len(CORPUS) + len(extra_corpus)} corpus histories (replays of the repaired defects F1 F10 F11 F12 F13 and version/sharing scenarios) + {n} generated histories of '
                          f'3..{maxlen} commands (write/delete/track/carry-in/recheck/remove/untrack/copy/move with all their options, 4 algorithms, 3 text/binary modes, 4 methods, '
-                         'parallel on/off, content classes empty/LF/CRLF/mixed/binary/NUL at 7999|8000/large/UTF-8/duplicates, paths nested/no extension/space/non-ASCII/hidden); '
+                         'parallel on/off, content classes empty/LF/CRLF/mixed/binary/NUL at 7999|8000/large/UTF-8/duplicates/long runs of line endings (prefix 0..3 read buffers x LF|CRLF|CR|mixed x run of 1..3 buffers, '
+                         'two texts that differ only after the run), paths nested/no extension/space/non-ASCII/hidden; appended motifs: same-second edits, uncached versions, cross-extension duplicates, empty digest '
+                         'directory, method-change (workspace state committed|edited|replaced|deleted x recorded method x requested method x --force, then delete + plain recheck), earlier-version (X current '
+                         'version of one path and earlier version of another, then untrack|remove of one of them)); '
                          'after EVERY command the abstraction of the real repository (workspace kinds+bytes+mode+link target, cache objects+modes, records replayed from the JSON event files) '
                          'is compared with the Lean driver; a history is non-trivial when it has >= 2 xvc commands and a non-empty cache; distinct by command list')
     if fault_stream:
